@@ -158,12 +158,22 @@ fn gene_of_code(x: u64) -> PushGene {
     }
 }
 fn parent_gene(i: usize) -> PushGene { PushGene::Instruction(PushInstruction::InputVar(VariableName::from(format!("p{i}").as_str()))) }
-fn close_bits_of<T: Distribution<PushInstruction> + std::fmt::Debug>(gg: &GeneGenerator<T>) -> u32 {
-    let s = format!("{gg:?}");
-    let a = s.find("close_probability: ").expect("Debug of GeneGenerator") + "close_probability: ".len();
-    let rest = &s[a..];
-    let end = rest.find(|c: char| c == ',' || c == ' ').unwrap();
-    rest[..end].parse::<f32>().expect("f32").to_bits()
+/// The close probability of a gene generator, measured by what it does: the number of f32 grid draws `k * 2^-24`
+/// (`0 <= k < 2^24`) for which a sampled gene is a close marker, found by bisection with scripted draws (a gene is a
+/// close marker iff the draw is below the probability, so the set of such `k` is an initial segment).  Independent of
+/// how the generator stores or prints the value.
+fn close_cutoff_of<T: Distribution<PushInstruction>>(gg: &GeneGenerator<T>) -> u64 {
+    let is_close = |k: u64| -> bool {
+        let mut rng = LinRng::new(vec![k << 40], SplitMix::derive(0xC105E, k));
+        matches!(gg.sample(&mut rng), PushGene::Close)
+    };
+    let top = 1u64 << 24;
+    if is_close(top - 1) { return top; }
+    if !is_close(0) { return 0; }
+    // invariant: is_close(lo), !is_close(hi)
+    let (mut lo, mut hi) = (0u64, top - 1);
+    while hi - lo > 1 { let mid = (lo + hi) / 2; if is_close(mid) { lo = mid } else { hi = mid } }
+    hi
 }
 
 // ---------------------------------------------------------------- cases
@@ -527,8 +537,10 @@ fn case_gene(d: &mut crate::driver::Driver, r: &mut Report, seed: u64, i: u64, m
     let default_p = g.chance(1, 2);
     let count = 1 + g.below(24) as usize;
     let probe = ProbeInstr { n: n_instr };
-    let gg = if default_p { probe.into_gene_generator() } else { probe.into_gene_generator_with_close_probability(f32::from_bits(gen_f32_rate(&mut g))) };
-    let close = close_bits_of(&gg);
+    let close_cfg = gen_f32_rate(&mut g);
+    let gg = if default_p { probe.into_gene_generator() } else { probe.into_gene_generator_with_close_probability(f32::from_bits(close_cfg)) };
+    // the probability the model is run with: the configured one, or the model's own default fl32(1/fl32(n+1))
+    let close: u32 = if default_p { d.ask(&format!("mut closep {n_instr}")).trim_end_matches(" native-mismatch").parse().expect("closep reply") } else { close_cfg };
     let script = boundary_script(&mut g, f32::from_bits(close), count);
     let mut real_rng = LinRng::new(script, SplitMix::derive(seed ^ 0xC12, i));
     let mut shadow = real_rng.clone();
@@ -555,25 +567,22 @@ fn case_gene(d: &mut crate::driver::Driver, r: &mut Report, seed: u64, i: u64, m
 }
 
 fn case_closep(d: &mut crate::driver::Driver, r: &mut Report, n: usize, mutant: Mutant) {
-    let built = catch_unwind(AssertUnwindSafe(|| close_bits_of(&ProbeInstr { n }.into_gene_generator())));
+    let req = format!("mut closecut {n}");
+    let built = catch_unwind(AssertUnwindSafe(|| close_cutoff_of(&ProbeInstr { n }.into_gene_generator())));
+    r.case(&req, true);
+    r.hit("with_uniform_close_probability(n): close-marker cut-off on the 2^-24 grid");
     let Ok(mut real) = built else {
-        r.case(&format!("mut closep {n}"), true);
-        r.violate(json!({"case": format!("mut closep {n}"), "real": "panic", "what": format!("with_uniform_close_probability panicked for {n} instructions (the default close probability 1/(n+1) must exist for every instruction-set size)")}));
+        r.violate(json!({"case": req, "real": "panic", "what": format!("with_uniform_close_probability panicked for {n} instructions (the default close probability 1/(n+1) must exist for every instruction-set size)")}));
         return;
     };
-    if mutant == Mutant::CloseOffByOne { real = (1.0f32 / n as f32).to_bits(); }
-    let req = format!("mut closep {n}");
-    let model = d.ask(&req);
-    r.case(&req, true);
-    r.hit("with_uniform_close_probability(n) bits");
-    if model.ends_with("native-mismatch") { r.disagree(json!({"case": req, "what": "exact fl32(1/(n+1)) disagrees with hardware Float32", "impl": model})); }
-    // property oracle: the default close probability is 1/(n+1) up to f32 rounding (relative error <= 2^-23)
-    let want = 1.0f64 / (n as f64 + 1.0);
-    let got = f32::from_bits(real) as f64;
-    if ((got - want) / want).abs() > 1.2e-7 {
-        r.violate(json!({"case": req, "real": got, "what": format!("default close probability for {n} instructions must be 1/(n+1) = {want}")}));
+    if mutant == Mutant::CloseOffByOne { real = ((1.0f64 / n as f64) * (1u64 << 24) as f64).ceil().min((1u64 << 24) as f64) as u64; }
+    let model: u64 = d.ask(&req).trim().parse().unwrap_or(u64::MAX);
+    // property oracle: P(close) = cut-off / 2^24 is 1/(n+1) up to the f32 rounding of the probability and the grid
+    let want = (1u64 << 24) as f64 / (n as f64 + 1.0);
+    if (real as f64 - want).abs() > 2.0 + want * 1.3e-7 {
+        r.violate(json!({"case": req, "real": real, "spec": want, "what": format!("default close probability for {n} instructions must be 1/(n+1): {want:.3} of the 2^24 grid draws must give a close marker, {real} do")}));
     }
-    if real.to_string() != model.trim_end_matches(" native-mismatch") { r.disagree(json!({"case": req, "real": real, "impl": model})); }
+    if real != model { r.disagree(json!({"case": req, "real": real, "impl": model})); }
 }
 
 fn case_bits(d: &mut crate::driver::Driver, r: &mut Report, seed: u64, i: u64) {
